@@ -83,9 +83,13 @@ def opsOk (s : SchemaD) (doc : Doc) (vars : Vars) : Bool :=
     | some r => selsOk s doc vars r o.sels
     | none => false
 
+/-- fragment names are unique (rule UniqueFragmentNames); without it the fragment table may return a definition other
+    than the one `fragsAcyclic` looked at -/
+def fragsUnique (doc : Doc) : Bool := decide (doc.frags.map (·.name)).Nodup
+
 /-- the structural part, implied by the real validator -/
 def validDocB (s : SchemaD) (doc : Doc) (vars : Vars) : Bool :=
-  opsOk s doc vars && fragsOk s doc vars && fragsAcyclic doc
+  opsOk s doc vars && fragsOk s doc vars && fragsAcyclic doc && fragsUnique doc
 
 def ValidDoc (s : SchemaD) (doc : Doc) (vars : Vars) : Prop := validDocB s doc vars = true
 
@@ -126,6 +130,7 @@ def validDocWhy (s : SchemaD) (doc : Doc) (vars : Vars) : String :=
   else if !opsOk s doc vars then "operation-selection-ill-typed"
   else if !fragsOk s doc vars then "fragment-ill-typed"
   else if !fragsAcyclic doc then "fragment-cycle"
+  else if !fragsUnique doc then "duplicate-fragment-names"
   else ""
 
 
